@@ -30,6 +30,10 @@ Verdict(ev) ==
      [] ev.e = "ev_wdone" -> IF ~flag[t] THEN Bad("spurious_return") ELSE IF mown[t] # t THEN Bad("event_mutex_exclusion") ELSE Good
      [] ev.e = "w_resumed" -> IF woken[t] = NONE THEN Bad("spurious_return") ELSE IF v # future[t] THEN Bad("future_value") ELSE Good
      [] ev.e = "w_destroy" -> Good
+     \* delegate waiters (ids above the thread ids): queue entries whose wake-up is a function call under the system lock
+     [] ev.e = "d_enq" -> IF owner # t THEN Bad("queue_changed_without_lock") ELSE IF \E i \in 1..Len(wq) : wq[i] = w THEN Bad("queued_twice") ELSE Good
+     [] ev.e = "d_call" -> IF woken[w] = NONE THEN Bad("spurious_return") ELSE IF resumed[w] # -1 THEN Bad("woken_twice")
+                           ELSE IF v # future[w] THEN Bad("future_value") ELSE IF owner # t THEN Bad("callback_without_lock") ELSE Good
      [] ev.e = "u_empty" -> IF owner # t THEN Bad("queue_read_without_lock") ELSE IF wq # <<>> THEN Bad("queued_waiter_not_woken") ELSE Good
      [] ev.e = "u_unlink" -> IF owner # t THEN Bad("queue_changed_without_lock")
                              ELSE IF wq = <<>> \/ w # Head(wq) THEN Bad("wake_order") ELSE Good
@@ -60,6 +64,9 @@ Effect(ev) ==
      [] ev.e = "ev_wdone" -> EvWDone(t) /\ Keep(<<owner, rec, depth, saved, wq, alive, flag, parked, notified, future, woken, resumed, sem, q, pushed, popped, touchedDead>>)
      [] ev.e = "w_resumed" -> WResumed(t) /\ Keep(<<owner, rec, depth, saved, wq, alive, flag, mown, parked, notified, future, woken, sem, q, pushed, popped, touchedDead>>)
      [] ev.e = "w_destroy" -> WDestroy(t) /\ Keep(<<owner, rec, depth, saved, wq, flag, mown, parked, notified, future, woken, resumed, sem, q, pushed, popped, touchedDead>>)
+     [] ev.e = "d_enq" -> /\ wq' = Append(wq, w) /\ alive' = [alive EXCEPT ![w] = TRUE] /\ woken' = [woken EXCEPT ![w] = NONE] /\ resumed' = [resumed EXCEPT ![w] = -1]
+                          /\ Keep(<<owner, rec, depth, saved, flag, mown, parked, notified, future, sem, q, pushed, popped, touchedDead>>)
+     [] ev.e = "d_call" -> resumed' = [resumed EXCEPT ![w] = v] /\ Keep(<<owner, rec, depth, saved, wq, alive, flag, mown, parked, notified, future, woken, sem, q, pushed, popped, touchedDead>>)
      [] ev.e = "u_unlink" -> UUnlink(t, w, v) /\ Keep(<<owner, rec, depth, saved, alive, flag, mown, parked, notified, resumed, sem, q, pushed, popped, touchedDead>>)
      [] ev.e = "ev_slock" -> EvSLock(t, w) /\ Keep(<<owner, rec, depth, saved, wq, alive, flag, parked, notified, future, woken, resumed, sem, q, pushed, popped>>)
      [] ev.e = "ev_set" -> EvSet(t, w) /\ Keep(<<owner, rec, depth, saved, wq, alive, mown, parked, notified, future, woken, resumed, sem, q, pushed, popped>>)
